@@ -207,7 +207,17 @@ func (f *frame) safeEval(env *specEnv, cl *Clause) (res *Term) {
 				res = nil
 				return
 			}
-			panic(r)
+			if debugPanics {
+				panic(r)
+			}
+			// the clause cannot be evaluated at this program point (e.g. an
+			// invariant that, after a code change, lands on a loop over a
+			// different map type): the clause is dropped and reported; the rest
+			// of the contract is still checked, so an ensures that depended on it
+			// fails as an obligation instead of the whole function going undecided
+			f.c.warn = append(f.c.warn, fmt.Sprintf("SPEC-ERROR %s:%d: clause cannot be evaluated here (%v) in %q", cl.File, cl.Line, r, cl.Text))
+			f.c.specErrors++
+			res = nil
 		}
 	}()
 	return env.evalBool(cl.E)
